@@ -627,6 +627,11 @@ struct Ref
     std::set<std::string> failingHrefTargets; // file names of failing imports' targets
     bool cycle = false;
     std::string why; // first failure reason
+    // Position of the first import that fails by itself, as the string of dependency links leading to it from a root
+    // import: I import->target, C child of a local component, K child of an import component, V units of a variable,
+    // U unit reference of local units ("-" = the root import itself).
+    std::string failPath;
+    std::string curPath;
 
     Ref(const Graph &gr, const std::vector<int> &st, bool s)
         : g(gr)
@@ -645,7 +650,16 @@ struct Ref
     {
         if (why.empty()) {
             why = r;
+            failPath = curPath.empty() ? "-" : curPath;
         }
+    }
+
+    bool follow(char link, int f, int e)
+    {
+        curPath.push_back(link);
+        bool r = sat(f, e);
+        curPath.pop_back();
+        return r;
     }
 
     bool sat(int f, int e)
@@ -676,7 +690,7 @@ struct Ref
                     ok = false;
                     fail("import " + E.name + ": no " + (E.isComp ? "component " : "units ") + E.impRef + " in " + g.files[static_cast<size_t>(E.impFile)].path());
                 } else {
-                    ok = sat(E.impFile, t);
+                    ok = follow('I', E.impFile, t);
                 }
             }
         }
@@ -684,7 +698,7 @@ struct Ref
             const auto &es = g.files[static_cast<size_t>(f)].ents;
             for (size_t c = 0; c < es.size() && ok; ++c) {
                 if (es[c].isComp && es[c].parent == e) {
-                    ok = sat(f, static_cast<int>(c));
+                    ok = follow(E.imp ? 'K' : 'C', f, static_cast<int>(c));
                 }
             }
         }
@@ -697,7 +711,7 @@ struct Ref
                 if (t < 0) {
                     ok = false;
                     fail("units " + u + " used by " + E.name + " not defined");
-                } else if (!sat(f, t)) {
+                } else if (!follow(E.isComp ? 'V' : 'U', f, t)) {
                     ok = false;
                 }
                 if (!ok) {
@@ -724,6 +738,7 @@ struct Ref
         for (size_t e = 0; e < es.size(); ++e) {
             if (es[e].imp) {
                 stack.clear();
+                curPath.clear();
                 if (!sat(0, static_cast<int>(e))) {
                     all = false;
                     failingRoot.push_back(static_cast<int>(e));
@@ -964,7 +979,8 @@ void monExplained(bool failed, const Logger &lg, const std::string &service, con
     }
 }
 
-constexpr unsigned kChildSeconds = 100; // watchdog of one scenario (normal duration: milliseconds)
+constexpr unsigned kChildSeconds = 100; // wall-clock backstop of one scenario
+constexpr rlim_t kChildCpuSeconds = 4; // CPU budget of one scenario (normal: ~15 ms under ASan), independent of machine load
 
 struct ChildResult
 {
@@ -1089,6 +1105,9 @@ ChildResult runIsolated(const std::function<void()> &body)
             setrlimit(RLIMIT_STACK, &rl);
         }
         alarm(kChildSeconds);
+        rl.rlim_cur = kChildCpuSeconds; // work bound: a scenario needs ~15 ms of CPU
+        rl.rlim_max = kChildCpuSeconds + 2;
+        setrlimit(RLIMIT_CPU, &rl);
         body();
         fflush(nullptr);
         _exit(0);
@@ -1155,9 +1174,10 @@ ChildResult runIsolated(const std::function<void()> &body)
         res.normal = true;
         return res;
     }
-    if (WIFSIGNALED(status) && WTERMSIG(status) == SIGALRM) {
+    if (WIFSIGNALED(status) && (WTERMSIG(status) == SIGALRM || WTERMSIG(status) == SIGXCPU || WTERMSIG(status) == SIGKILL)) {
         res.key = "hang:" + res.lastStage;
-        res.report = "the scenario did not finish within " + std::to_string(kChildSeconds) + " s (normal duration: milliseconds); last stage " + res.lastStage;
+        res.report = "the scenario did not finish within " + std::to_string(kChildCpuSeconds) + " s of CPU time / " + std::to_string(kChildSeconds)
+                     + " s wall clock (normal: ~15 ms); last stage " + res.lastStage;
         return res;
     }
     std::string kind = crashKind(err, status);
@@ -1233,39 +1253,99 @@ std::pair<int, int> locate(const Graph &g, const std::string &name, bool isComp)
     return {-1, -1};
 }
 
-// structural features of the part of the graph the root depends on (used to make keys specific)
-std::string featureTag(const Graph &g)
+// Walks the libcellml objects alongside the IR (in the order of the reference resolver) and reports the link path of
+// the first import the root depends on whose ImportSource has no model attached ("all-linked" when there is none).
+// Purely observational: it makes the keys of "resolved but not really" violations say *which* import was skipped.
+struct LinkWalk
 {
-    // does some local component that is an encapsulated descendant of another component use imported units?
-    bool childUnitsImport = false;
-    bool unitsViaUnits = false;
-    for (size_t f = 0; f < g.files.size(); ++f) {
-        for (const auto &e : g.files[f].ents) {
-            if (e.imp) {
-                continue;
+    const Graph &g;
+    std::set<std::pair<int, int>> visited;
+    std::string path;
+    std::string found;
+    bool has = false;
+
+    explicit LinkWalk(const Graph &gr)
+        : g(gr)
+    {
+    }
+
+    void hit(const std::string &suffix)
+    {
+        if (!has) {
+            has = true;
+            found = (path.empty() ? "-" : path) + suffix;
+        }
+    }
+
+    void step(char link, int f, int e, const ModelPtr &owner)
+    {
+        path.push_back(link);
+        walk(f, e, owner);
+        path.pop_back();
+    }
+
+    void walk(int f, int e, const ModelPtr &owner)
+    {
+        if (has || owner == nullptr || !visited.insert({f, e}).second) {
+            return;
+        }
+        const Ent &E = g.files[static_cast<size_t>(f)].ents[static_cast<size_t>(e)];
+        ImportSourcePtr src;
+        if (E.isComp) {
+            auto c = owner->component(E.name, true);
+            if (c == nullptr) {
+                hit("(object-not-found)");
+                return;
             }
-            for (const auto &u : e.uses) {
-                int t = g.find(static_cast<int>(f), u, false);
-                if (t >= 0 && g.files[f].ents[static_cast<size_t>(t)].imp) {
-                    if (e.isComp && e.parent >= 0) {
-                        childUnitsImport = true;
-                    }
-                    if (!e.isComp) {
-                        unitsViaUnits = true;
-                    }
+            src = c->isImport() ? c->importSource() : nullptr;
+        } else {
+            auto u = owner->units(E.name);
+            if (u == nullptr) {
+                hit("(object-not-found)");
+                return;
+            }
+            src = u->isImport() ? u->importSource() : nullptr;
+        }
+        if (E.imp) {
+            if (src == nullptr || !src->hasModel()) {
+                hit("");
+                return;
+            }
+            int t = g.find(E.impFile, E.impRef, E.isComp);
+            if (t >= 0) {
+                step('I', E.impFile, t, src->model());
+            }
+        }
+        const auto &es = g.files[static_cast<size_t>(f)].ents;
+        if (E.isComp) {
+            for (size_t c = 0; c < es.size(); ++c) {
+                if (es[c].isComp && es[c].parent == e) {
+                    step(E.imp ? 'K' : 'C', f, static_cast<int>(c), owner);
+                }
+            }
+        }
+        if (!E.imp) {
+            for (const auto &u : E.uses) {
+                int t = g.find(f, u, false);
+                if (t >= 0) {
+                    step(E.isComp ? 'V' : 'U', f, t, owner);
                 }
             }
         }
     }
-    std::string t;
-    if (childUnitsImport) {
-        t += "+child-uses-imported-units";
+
+    std::string run(const ModelPtr &root)
+    {
+        const auto &es = g.files[0].ents;
+        for (size_t e = 0; e < es.size() && !has; ++e) {
+            if (es[e].imp) {
+                path.clear();
+                walk(0, static_cast<int>(e), root);
+            }
+        }
+        return has ? found : "all-linked";
     }
-    if (unitsViaUnits) {
-        t += "+units-over-imported-units";
-    }
-    return t;
-}
+};
 
 ModelPtr parseRoot(const std::string &dir, const Graph &g, const std::string &what, const std::string &replay)
 {
@@ -1283,9 +1363,14 @@ ModelPtr parseRoot(const std::string &dir, const Graph &g, const std::string &wh
 // ------------------------------------------------------------------------------------------------ one scenario
 void scenarioBody(const Scenario &sc, bool strict, const std::string &dir, const std::string &base, const std::string &replay)
 {
-    const std::string &cls = sc.fault.cls;
     const std::string mode = strict ? "strict" : "permissive";
     std::string shape = sc.good.shape();
+    bool subdirs = false;
+    for (const auto &f : sc.good.files) {
+        subdirs = subdirs || !f.dir.empty();
+    }
+    // fault class used in keys: files spread over sub-directories are a class of their own (relative hrefs with "..")
+    const std::string cls = sc.fault.cls + (subdirs ? "+subdirs" : "");
     S("scenarios");
     S("scenarios:" + cls);
     S(strict ? "mode_strict" : "mode_permissive");
@@ -1307,8 +1392,8 @@ void scenarioBody(const Scenario &sc, bool strict, const std::string &dir, const
     if (ref.cycle) {
         S("reference_saw_import_cycle");
     }
-    // sanity of the generator: the unfaulted graph must be resolvable
     {
+        // sanity of the generator: the unfaulted graph must be resolvable
         std::vector<int> allOk(sc.good.files.size(), ST_OK);
         Ref r0(sc.good, allOk, strict);
         if (!r0.resolveRoot()) {
@@ -1317,7 +1402,10 @@ void scenarioBody(const Scenario &sc, bool strict, const std::string &dir, const
         }
     }
     bool plainUnitsCycle = sc.fault.type == Fault::UCYC;
-    std::string ftag = cls + featureTag(sc.bad);
+    // where the (first) unsatisfiable import sits, seen from the root
+    const std::string where = expected ? "ok" : ref.failPath;
+    const std::string tagged = cls + "@" + where;
+    SEEN("failing_import_position", where);
 
     // ---- run the library
     ModelPtr model = parseRoot(dir, sc.bad, "faulty", replay);
@@ -1325,7 +1413,7 @@ void scenarioBody(const Scenario &sc, bool strict, const std::string &dir, const
         return;
     }
     auto importer = Importer::create(strict);
-    STAGE("resolveImports:" + cls);
+    STAGE("resolveImports:" + tagged);
     bool got = importer->resolveImports(model, base);
     monLogger(*importer, "Importer::resolveImports", replay);
     monExplained(!got, *importer, "Importer::resolveImports", replay);
@@ -1333,8 +1421,19 @@ void scenarioBody(const Scenario &sc, bool strict, const std::string &dir, const
     std::string resolveIssues = issueSummary(*importer, 12);
     if (got != expected) {
         S("verdict_disagree");
-        viol("C07", std::string("resolve-verdict:") + (expected ? "true" : "false") + "-got-" + (got ? "true" : "false") + ":" + ftag + ":" + mode,
-             std::string("reference resolver: ") + (expected ? "every transitive import of the root can be satisfied" : "unsatisfiable: " + ref.why)
+        std::string pos = where;
+        if (expected) { // refused although satisfiable: say what it complained about
+            pos = "ok";
+            for (size_t i = 0; i < importer->issueCount(); ++i) {
+                auto is = importer->issue(i);
+                if (is->level() == Issue::Level::ERROR) {
+                    pos = "ok/" + ruleName(is->referenceRule());
+                    break;
+                }
+            }
+        }
+        viol("C07", std::string("resolve-verdict:") + (expected ? "true" : "false") + "-got-" + (got ? "true" : "false") + ":" + cls + "@" + pos + ":" + mode,
+             std::string("reference resolver: ") + (expected ? "every transitive import of the root can be satisfied" : "unsatisfiable: " + ref.why + " (position " + ref.failPath + ")")
                  + "\nresolveImports returned " + (got ? "true" : "false") + "; importer issues:\n" + resolveIssues,
              replay);
     } else {
@@ -1342,36 +1441,37 @@ void scenarioBody(const Scenario &sc, bool strict, const std::string &dir, const
         S(std::string("verdict_agree:") + (expected ? "true" : "false"));
     }
 
-    auto flattenAndCheck = [&](bool expectSuccess, bool judge) {
-        STAGE("flattenModel:" + cls);
-        auto flat = importer->flattenModel(model);
+    auto flattenAndCheck = [&](const ModelPtr &mdl, const Graph &graph, bool afterTrue, bool judge, const std::string &tag) {
+        STAGE(std::string("flatten-after-") + (afterTrue ? "true:" : "false:") + tag);
+        auto flat = importer->flattenModel(mdl);
         monLogger(*importer, "Importer::flattenModel", replay);
         monExplained(flat == nullptr, *importer, "Importer::flattenModel", replay);
         S(flat != nullptr ? "flatten_nonnull" : "flatten_null");
         if (!judge) {
             S(flat != nullptr ? "flatten_unjudged_nonnull" : "flatten_unjudged_null");
             if (flat != nullptr) {
-                STAGE("flat->hasImports:" + cls);
+                STAGE("flat->hasImports:" + tag);
                 S(flat->hasImports() ? "flatten_unjudged_has_imports" : "flatten_unjudged_import_free");
             }
             return;
         }
-        if (expectSuccess) {
+        if (afterTrue) {
             if (flat == nullptr) {
-                viol("C07", "flatten-null-after-success:" + ftag, "resolveImports returned true (as the reference resolver expects) but flattenModel returned null:\n" + issueSummary(*importer), replay);
+                viol("C07", "flatten-null-after-success:" + tag.substr(0, tag.find('@')) + "@" + LinkWalk(graph).run(mdl),
+                     "resolveImports returned true (as the reference resolver expects) but flattenModel returned null:\n" + issueSummary(*importer), replay);
             } else {
-                STAGE("flat->hasImports:" + cls);
+                STAGE("flat->hasImports:" + tag);
                 if (flat->hasImports()) {
-                    viol("C07", "flatten-result-has-imports:" + ftag, "flattenModel returned a model that still has imports", replay);
+                    viol("C07", "flatten-result-has-imports:" + tag, "flattenModel returned a model that still has imports", replay);
                 } else {
                     S("flatten_ok");
                 }
             }
         } else {
             if (flat != nullptr) {
-                viol("C07", "flatten-nonnull-unresolvable:" + ftag, "imports are unsatisfiable (" + ref.why + ") but flattenModel returned a model", replay);
+                viol("C07", "flatten-nonnull-unresolvable:" + tag, "imports are unsatisfiable (" + ref.why + ") but flattenModel returned a model", replay);
             } else if (importer->issueCount() == 0) {
-                viol("C07", "flatten-null-no-issue:" + ftag, "flattenModel returned null without any issue", replay);
+                viol("C07", "flatten-null-no-issue:" + tag, "flattenModel returned null without any issue", replay);
             } else {
                 S("flatten_refused_with_issue");
             }
@@ -1380,13 +1480,14 @@ void scenarioBody(const Scenario &sc, bool strict, const std::string &dir, const
 
     if (got) {
         if (sc.fault.flattenFirst) {
-            flattenAndCheck(true, expected && !plainUnitsCycle);
+            flattenAndCheck(model, sc.bad, true, expected && !plainUnitsCycle, tagged);
         }
-        STAGE("hasUnresolvedImports:" + cls);
+        STAGE("hasUnresolvedImports:" + tagged);
         bool unresolved = model->hasUnresolvedImports();
         if (unresolved) {
             if (expected) {
-                viol("C07", "unresolved-after-success:" + ftag, "resolveImports returned true yet Model::hasUnresolvedImports() is true", replay);
+                viol("C07", "unresolved-after-success:" + cls + "@" + LinkWalk(sc.bad).run(model),
+                     "resolveImports returned true yet Model::hasUnresolvedImports() is true", replay);
             } else {
                 S("unresolved_after_wrong_success");
             }
@@ -1395,17 +1496,16 @@ void scenarioBody(const Scenario &sc, bool strict, const std::string &dir, const
         }
         if (!sc.fault.flattenFirst) {
             // with a plain units cycle the statement only promises termination of flattenModel
-            flattenAndCheck(true, expected && !plainUnitsCycle);
+            flattenAndCheck(model, sc.bad, true, expected && !plainUnitsCycle, tagged);
         }
     } else {
         // at least one issue attached to the failing import
         size_t n = importer->issueCount();
         if (n == 0) {
-            viol("C07", "no-issue-on-failure:" + ftag, "resolveImports returned false with an empty issue list", replay);
+            viol("C07", "no-issue-on-failure:" + tagged, "resolveImports returned false with an empty issue list", replay);
         } else if (!expected) {
             bool attached = false;
             bool related = false;
-            size_t rootAttached = 0;
             std::set<int> rootWithIssue;
             for (size_t i = 0; i < n; ++i) {
                 auto is = importer->issue(i);
@@ -1424,7 +1524,6 @@ void scenarioBody(const Scenario &sc, bool strict, const std::string &dir, const
                         if (E.imp) {
                             attached = true;
                             if (loc.first == 0) {
-                                ++rootAttached;
                                 rootWithIssue.insert(loc.second);
                             }
                         } else {
@@ -1449,61 +1548,92 @@ void scenarioBody(const Scenario &sc, bool strict, const std::string &dir, const
                 S("unsure:issue-on-related-object");
                 SEEN("unsure", "issue-on-related-object:" + cls);
             } else {
-                viol("C07", "issue-not-on-failing-import:" + ftag,
+                viol("C07", "issue-not-on-failing-import:" + tagged,
                      "no importer issue is attached to an import on a failing chain (" + ref.why + "); issues:\n" + resolveIssues, replay);
             }
         }
-        flattenAndCheck(false, !expected);
+        flattenAndCheck(model, sc.bad, false, !expected, tagged);
     }
 
     // ---- recovery
-    if (sc.fault.type != Fault::NONE) {
-        std::vector<int> allOk(sc.good.files.size(), ST_OK);
-        std::vector<std::string> goodText;
-        for (size_t i = 0; i < sc.good.files.size(); ++i) {
-            goodText.push_back(writeFileText(sc.good, i, false));
-        }
-        if (!writeScenarioFiles(dir, sc.good, goodText, allOk)) {
-            viol("C07", "harness:cannot-write-files", dir, replay);
+    if (sc.fault.type == Fault::NONE) {
+        return;
+    }
+    std::vector<int> allOk(sc.good.files.size(), ST_OK);
+    std::vector<std::string> goodText;
+    for (size_t i = 0; i < sc.good.files.size(); ++i) {
+        goodText.push_back(writeFileText(sc.good, i, false));
+    }
+    if (!writeScenarioFiles(dir, sc.good, goodText, allOk)) {
+        viol("C07", "harness:cannot-write-files", dir, replay);
+        return;
+    }
+    // observed, not judged: retry on the same importer without clearing its library
+    {
+        ModelPtr m2 = parseRoot(dir, sc.good, "repaired", replay);
+        if (m2 == nullptr) {
             return;
         }
-        // observed, not judged: retry on the same importer without clearing its library
-        {
-            ModelPtr m2 = parseRoot(dir, sc.good, "repaired", replay);
-            if (m2 == nullptr) {
-                return;
-            }
-            STAGE("retry-without-clear:" + cls);
-            bool r = importer->resolveImports(m2, base);
-            monLogger(*importer, "Importer::resolveImports", replay);
-            monExplained(!r, *importer, "Importer::resolveImports", replay);
-            S(std::string("retry_noclear_") + (r ? "ok" : "fail") + ":" + (got ? "after-success:" : "after-failure:") + cls);
-            S(std::string("retry_noclear_") + (r ? "ok" : "fail"));
-        }
-        S("recoveries_attempted");
-        STAGE("removeAllModels:" + cls);
-        importer->removeAllModels();
-        if (importer->libraryCount() != 0) {
-            viol("C07", "library-not-empty-after-removeAllModels", std::to_string(importer->libraryCount()), replay);
-        }
-        ModelPtr m3 = parseRoot(dir, sc.good, "repaired", replay);
-        if (m3 == nullptr) {
-            return;
-        }
-        STAGE("resolveImports-after-repair:" + cls);
-        bool r3 = importer->resolveImports(m3, base);
+        STAGE("retry-without-clear:" + tagged);
+        bool r = importer->resolveImports(m2, base);
         monLogger(*importer, "Importer::resolveImports", replay);
-        monExplained(!r3, *importer, "Importer::resolveImports", replay);
-        if (!r3) {
-            viol("C07", "no-recovery:" + ftag, "after repairing the file set and Importer::removeAllModels() a fresh resolveImports still fails:\n" + issueSummary(*importer), replay);
-        } else {
-            STAGE("hasUnresolvedImports-after-repair:" + cls);
-            if (m3->hasUnresolvedImports()) {
-                viol("C07", "unresolved-after-success:repaired:" + ftag, "after repair resolveImports returned true yet hasUnresolvedImports() is true", replay);
-            } else {
-                S("recoveries_succeeded");
+        monExplained(!r, *importer, "Importer::resolveImports", replay);
+        S(std::string("retry_noclear_") + (r ? "ok" : "fail") + ":" + (got ? "after-success:" : "after-failure:") + sc.fault.cls);
+        S(std::string("retry_noclear_") + (r ? "ok" : "fail"));
+    }
+    S("recoveries_attempted");
+    STAGE("removeAllModels:" + tagged);
+    importer->removeAllModels();
+    if (importer->libraryCount() != 0) {
+        viol("C07", "library-not-empty-after-removeAllModels", std::to_string(importer->libraryCount()), replay);
+    }
+    ModelPtr m3 = parseRoot(dir, sc.good, "repaired", replay);
+    if (m3 == nullptr) {
+        return;
+    }
+    STAGE("resolve-after-repair:" + tagged);
+    bool r3 = importer->resolveImports(m3, base);
+    monLogger(*importer, "Importer::resolveImports", replay);
+    monExplained(!r3, *importer, "Importer::resolveImports", replay);
+    std::string r3issues = issueSummary(*importer);
+    STAGE("hasUnresolvedImports-after-repair:" + tagged);
+    bool u3 = r3 && m3->hasUnresolvedImports();
+    if (r3 && !u3) {
+        S("recoveries_succeeded");
+        return;
+    }
+    // Differential: does a brand-new importer cope with the repaired file set?  If it does not either, the trouble is
+    // the unfaulted graph itself (reported under fault class "none"), not a failure to recover.
+    auto fresh = Importer::create(strict);
+    ModelPtr m4 = parseRoot(dir, sc.good, "repaired", replay);
+    if (m4 == nullptr) {
+        return;
+    }
+    STAGE("fresh-importer-on-repaired:" + tagged);
+    bool r4 = fresh->resolveImports(m4, base);
+    monLogger(*fresh, "Importer::resolveImports", replay);
+    bool u4 = r4 && m4->hasUnresolvedImports();
+    const std::string noneCls = std::string("none") + (subdirs ? "+subdirs" : "");
+    if (r4 && !u4) {
+        viol("C07", "no-recovery:" + tagged,
+             std::string("after repairing the file set and Importer::removeAllModels() a fresh resolveImports on the same importer ")
+                 + (r3 ? "returns true but leaves unresolved imports" : "still fails") + " whereas a new importer succeeds:\n" + r3issues,
+             replay);
+    } else if (!r4) {
+        S("recovery_blocked_by_base_defect");
+        std::string pos = "ok";
+        for (size_t i = 0; i < fresh->issueCount(); ++i) {
+            if (fresh->issue(i)->level() == Issue::Level::ERROR) {
+                pos = "ok/" + ruleName(fresh->issue(i)->referenceRule());
+                break;
             }
         }
+        viol("C07", "resolve-verdict:true-got-false:" + noneCls + "@" + pos + ":" + mode,
+             "repaired (fault-free) file set: resolveImports of a new importer returns false:\n" + issueSummary(*fresh), replay);
+    } else {
+        S("recovery_blocked_by_base_defect");
+        viol("C07", "unresolved-after-success:" + noneCls + "@" + LinkWalk(sc.good).run(m4),
+             "repaired (fault-free) file set: resolveImports of a new importer returns true yet Model::hasUnresolvedImports() is true", replay);
     }
 }
 
